@@ -829,7 +829,7 @@ Lemma dec_congr c hbuf T F F' key :
   length F = length F' -> nth 8 F 0 = nth 8 F' 0 -> skipn 48 F = skipn 48 F' ->
   dec c hbuf T F key = dec c hbuf T F' key.
 Proof.
-  intros Hv Hv' Hl H8 H48. unfold dec. rewrite Hv, Hv', Hl, H8, iv_mark_eq, text_mark_eq.
+  intros Hv Hv' Hl H8 H48. unfold dec. rewrite Hv, Hv', H8, iv_mark_eq, text_mark_eq.
   rewrite (Nat.add_comm 48), !skipn_add, H48. reflexivity.
 Qed.
 
@@ -1000,8 +1000,8 @@ Lemma export_dec_len c l data bytes :
   export c false l data = Ok bytes -> (length bytes <= bound c l)%nat.
 Proof.
   unfold export, bound. destruct (ld_final l).
-  - destruct (ld_total l) as [|n]; [discriminate|].
-    destruct (_ <? _)%nat; [discriminate|]. intro H. apply Ok_inj in H. rewrite <- H, firstn_length. lia.
+  - cbv zeta. intro H. apply Ok_inj in H. rewrite <- H.
+    destruct (_ <? _)%nat; [cbn [length]; lia|]. rewrite firstn_length. lia.
   - intro H. apply Ok_inj in H. rewrite <- H, firstn_length. lia.
 Qed.
 
@@ -1030,7 +1030,8 @@ Proof.
   assert (Hn : (n <= length rest)%nat) by (unfold n; rewrite firstn_length; lia).
   cbn [ld_final].
   destruct ((n <? sum c)%nat || match skipn (sum c) rest with [] => true | _ => false end) eqn:Hro.
-  - cbn [map]; rewrite list_sum_cons. unfold bound. cbn [ld_final ld_total].
+  - cbn [ld_total]. destruct (n / 16 =? 0)%nat; [cbn; lia|].
+    cbn [map]; rewrite list_sum_cons. unfold bound. cbn [ld_final ld_total].
     change (list_sum []) with 0%nat. pose proof (Nat.mul_div_le n 16). lia.
   - cbn [map]; rewrite list_sum_cons. unfold bound at 1. cbn [ld_final ld_total].
     apply orb_false_iff in Hro. destruct Hro as [Hlt _]. apply Nat.ltb_ge in Hlt.
@@ -1045,7 +1046,6 @@ Proof.
   intros c hbuf T F key out _ _ H. unfold dec in H.
   destruct (verify hbuf F key) as [code| | |]; try discriminate H.
   destruct code as [|p]; [|discriminate H].
-  destruct (length F <? text_mark T)%nat; [discriminate H|].
   destruct (create false (nth 8 F 0)) as [kind|]; [|discriminate H].
   unfold pipe_seq, loads_of in H. apply pipe_chunks_len in H.
   rewrite <- skipn_length. etransitivity; [exact H|apply loads_dec_bound].
